@@ -441,6 +441,86 @@ fn diagram(args: &[String]) {
     out.flush().unwrap();
 }
 
+// ---------------------------------------------------------------------------------------
+// linked_list.rs against its sequential meaning (spec/PListTrace.tla)
+
+fn plist(args: &[String]) {
+    let seed: u64 = args[0].parse().unwrap();
+    let nops: usize = args[1].parse().unwrap();
+    let mut out = std::io::BufWriter::new(std::fs::File::create(&args[2]).unwrap());
+    let mut rng = Rng::new(seed);
+    let mut hs: Vec<Option<List<u32>>> = (0..8).map(|_| None).collect();
+    let mut next_val = 1u32;
+    for _ in 0..nops {
+        let live: Vec<usize> = (0..8).filter(|&i| hs[i].is_some()).collect();
+        let free: Vec<usize> = (0..8).filter(|&i| hs[i].is_none()).collect();
+        let op = if live.is_empty() { 0 } else { rng.below(10) };
+        match op {
+            0 => {
+                if let Some(&d) = free.first() {
+                    hs[d] = Some(List::new());
+                    writeln!(out, "{{\"op\":\"new\",\"dst\":{}}}", d).unwrap();
+                }
+            }
+            1 | 2 | 3 | 4 => {
+                // append: the result replaces a random slot (possibly the source itself: the old
+                // handle is dropped, the usual way a game state advances)
+                let sidx = *rng.pick(&live);
+                let d = rng.below(8);
+                let v = next_val;
+                next_val += 1;
+                let r = guarded(|| hs[sidx].as_ref().unwrap().append(v));
+                match r {
+                    Ok(n) => {
+                        hs[d] = Some(n);
+                        writeln!(out, "{{\"op\":\"append\",\"src\":{},\"dst\":{},\"v\":{}}}", sidx, d, v).unwrap();
+                    }
+                    Err(p) => writeln!(out, "{{\"op\":\"panic\",\"call\":{}}}", json_str(&p)).unwrap(),
+                }
+            }
+            5 => {
+                let sidx = *rng.pick(&live);
+                let d = rng.below(8);
+                let t = hs[sidx].as_ref().unwrap().tail();
+                hs[d] = Some(t);
+                writeln!(out, "{{\"op\":\"tail\",\"src\":{},\"dst\":{}}}", sidx, d).unwrap();
+            }
+            6 => {
+                let sidx = *rng.pick(&live);
+                let d = rng.below(8);
+                let t = hs[sidx].as_ref().unwrap().clone();
+                hs[d] = Some(t);
+                writeln!(out, "{{\"op\":\"clone\",\"src\":{},\"dst\":{}}}", sidx, d).unwrap();
+            }
+            7 => {
+                let sidx = *rng.pick(&live);
+                hs[sidx] = None;
+                writeln!(out, "{{\"op\":\"drop\",\"src\":{}}}", sidx).unwrap();
+            }
+            _ => {
+                let sidx = *rng.pick(&live);
+                let h = hs[sidx].as_ref().unwrap();
+                let it: Vec<String> = h.iter().take(4000).map(|x| x.to_string()).collect();
+                let head = match h.head() {
+                    Some(x) => format!("[{}]", x),
+                    None => "[]".to_string(),
+                };
+                writeln!(
+                    out,
+                    "{{\"op\":\"query\",\"src\":{},\"len\":{},\"empty\":{},\"head\":{},\"iter\":[{}]}}",
+                    sidx,
+                    h.len(),
+                    if h.is_empty() { 1 } else { 0 },
+                    head,
+                    it.join(",")
+                )
+                .unwrap();
+            }
+        }
+    }
+    out.flush().unwrap();
+}
+
 fn main() {
     let args: Vec<String> = std::env::args().collect();
     silence_panics();
@@ -452,6 +532,7 @@ fn main() {
         "notation" => notation(&args[2..]),
         "hash" => hash(&args[2..]),
         "diagram" => diagram(&args[2..]),
+        "plist" => plist(&args[2..]),
         x => {
             eprintln!("unknown probe family {}", x);
             std::process::exit(2);
